@@ -1,9 +1,9 @@
 (* C17: fingerprints are structure functions with the documented fragment semantics.
    Theorem / exact / Print Assumptions only; proofs in Proofs.FingerprintProofs, model in Model.Fingerprint,
    hash model in Model.PyHash. *)
-From Coq Require Import ZArith List Bool Permutation.
-From Model Require Import PyBase Graph PyHash Fingerprint FingerprintCGR.
-From Proofs Require Import FingerprintProofs FingerprintCGRProofs.
+From Coq Require Import String ZArith List Bool Permutation.
+From Model Require Import PyBase Graph PyHash Fingerprint FingerprintCGR LinearSmiles.
+From Proofs Require Import FingerprintProofs FingerprintCGRProofs MorganNbhd LinearSmilesProofs.
 Import ListNotations.
 Open Scope Z_scope.
 
@@ -295,6 +295,14 @@ Print Assumptions C17_example_reordered.
    (bond "order" = int(DynamicBond) = hash((order or 0, p_order or 0))) with the CGR identifier dictionary
    hash((isotope or 0, atomic_number, charge, p_charge, is_radical, p_is_radical)). *)
 
+(* the two hashes of the CGR model are the CPython tuple hash (Model.PyHash.py_hash) of the tuples the code builds *)
+Theorem C17_cgr_hashes_pyhash : forall a b,
+  cgr_atom_identifier a = py_hash (PTuple [PInt (or0 (ca_iso a)); PInt (ca_num a); PInt (ca_chg a); PInt (ca_pchg a);
+                                           PBool (ca_rad a); PBool (ca_prad a)]) /\
+  cbond_int b = py_hash (PTuple [PInt (or0 (cb_ord b)); PInt (or0 (cb_pord b))]).
+Proof. exact (fun a b => conj (cgr_atom_identifier_pyhash a) (cbond_int_pyhash b)). Qed.
+Print Assumptions C17_cgr_hashes_pyhash.
+
 (* the theorems for an ARBITRARY identifier dictionary idd (molecules and CGRs are instances) *)
 Theorem C17_linear_hashes_with_rename : forall (s : Z -> Z), (forall x y, s x = s y -> x = y) ->
   forall (h : list Z -> Z) idd g lo hi nbp, wf_mol g = true ->
@@ -430,3 +438,83 @@ Theorem C17_example_cgr :
   hd 0 (set_z (cgr_linear_hash_list hash_ztuple ex_cgr 1 3 2)) = -7638454244423420739.
 Proof. exact example_cgr. Qed.
 Print Assumptions C17_example_cgr.
+
+(* ==================================================================================================== *)
+(* EXTENSION 2: what the Morgan identifier means.  `within g a k x`: x is reachable from a by at most k bonds;
+   `nbhd_iso g g' f a r`: a is an atom of g, f a one of g', f preserves the atom identifier of every atom within distance r of
+   a and maps the (neighbour, bond order) items of every atom within distance < r onto those of its image, up to order.
+   Every rooted isomorphism of the radius-r neighbourhoods is one (f need not even be injective).  Then a and f a have the
+   same identifier after r rounds, for EVERY hash function. *)
+Theorem C17_morgan_level_neighbourhood_invariant : forall (h : list Z -> Z) g g' (f : Z -> Z),
+  wf_mol g = true -> wf_mol g' = true -> forall a r, nbhd_iso g g' f a r ->
+  ident (morgan_level h g r) a = ident (morgan_level h g' r) (f a).
+Proof. exact morgan_level_neighbourhood_invariant. Qed.
+Print Assumptions C17_morgan_level_neighbourhood_invariant.
+
+(* the definition of nbhd_iso, spelled out (so that the statement above can be read without the proof file) *)
+Theorem C17_nbhd_iso_unfold : forall g g' f a r, nbhd_iso g g' f a r <->
+  In a (ids g) /\ In (f a) (ids g') /\
+  (forall k x, (k <= r)%nat -> within g a k x -> ident (atom_identifiers g) x = ident (atom_identifiers g') (f x)) /\
+  (forall k x, (k < r)%nat -> within g a k x ->
+     Permutation (map (fun it => (f (fst it), snd it)) (map (fun nb => (fst nb, b_ord (snd nb))) (nbrs g x)))
+                 (map (fun nb => (fst nb, b_ord (snd nb))) (nbrs g' (f x)))).
+Proof. exact (fun g g' f a r => iff_refl _). Qed.
+Print Assumptions C17_nbhd_iso_unfold.
+
+(* a renumbering is a neighbourhood isomorphism of every atom at every radius *)
+Theorem C17_rename_nbhd_iso : forall (s : Z -> Z) g a r, (forall x y, s x = s y -> x = y) -> In a (ids g) ->
+  nbhd_iso g (rename_mol s g) s a r.
+Proof. exact rename_nbhd_iso. Qed.
+Print Assumptions C17_rename_nbhd_iso.
+
+(* non-vacuity: the two methyl carbons of 2-propanol (automorphism 1 <-> 3, radius 5: the whole molecule); the methyl
+   carbon of 2-propanol and of ethanol agree at radius 1 for every hash and differ at radius 2 for CPython's hash *)
+Theorem C17_example_nbhd :
+  nbhd_iso ex_mol ex_mol swap13 1 5 /\
+  (forall h : list Z -> Z, ident (morgan_level h ex_mol 5) 1 = ident (morgan_level h ex_mol 5) 3) /\
+  nbhd_iso ex_mol ethanol (fun x => x) 1 1 /\
+  (forall h : list Z -> Z, ident (morgan_level h ex_mol 1) 1 = ident (morgan_level h ethanol 1) 1) /\
+  ident (morgan_level hash_ztuple ex_mol 2) 1 <> ident (morgan_level hash_ztuple ethanol 2) 1 /\
+  wf_mol ethanol = true.
+Proof. exact example_nbhd. Qed.
+Print Assumptions C17_example_nbhd.
+
+(* ==================================================================================================== *)
+(* EXTENSION 3: linear_hash_smiles (Model.LinearSmiles).  Inputs taken from the implementation: the iteration order chs of
+   the chain set and the spelling functions fa / fb of the SMILES writer. *)
+
+(* what the dictionary of the code holds: key x has the spelling of the FIRST chain (chains[0]) of every fragment one of
+   whose hashes is x *)
+Theorem C17_lhs_of_get : forall (fa : Z -> string) (fb : Z -> Z -> string) (h : list Z -> Z) nbp frs x s,
+  In s (sget (lhs_of fa fb h nbp frs) x) <->
+  exists e, In e frs /\ In x (entry_hashes h nbp e) /\ s = spell fa fb (hd [] (snd e)).
+Proof. exact lhs_of_get. Qed.
+Print Assumptions C17_lhs_of_get.
+
+(* "linear_hash_smiles does not depend on the atom numbering" is FALSE for the code as it is: methoxide + hydroxide
+   C[O-].[OH-], atoms 2 <-> 3; the model returns chython's dictionaries for the two numberings ('[O-]' / '[OH-]') *)
+Theorem C17_lhs_witness_values :
+  wf_mol w_mol = true /\
+  linear_hash_smiles_with w_fa w_fb hash_ztuple (atom_identifiers w_mol) w_mol w_chs 4 =
+    [(4844287390989025609, ["C"%string]); (8876755388055710236, ["[O-]"%string]); (-3062347929551842955, ["[O-]"%string])] /\
+  linear_hash_smiles_with w_fa' w_fb hash_ztuple (atom_identifiers (rename_mol w_swap w_mol)) (rename_mol w_swap w_mol) w_chs 4 =
+    [(4844287390989025609, ["C"%string]); (8876755388055710236, ["[OH-]"%string]); (-3062347929551842955, ["[OH-]"%string])] /\
+  chains w_mol 1 1 = w_chs /\ Permutation w_chs (chains (rename_mol w_swap w_mol) 1 1).
+Proof. exact witness_values. Qed.
+Print Assumptions C17_lhs_witness_values.
+
+Theorem C17_linear_hash_smiles_numbering_refuted : ~ lhs_numbering_independent linear_hash_smiles_with.
+Proof. exact linear_hash_smiles_numbering_refuted. Qed.
+Print Assumptions C17_linear_hash_smiles_numbering_refuted.
+
+(* the property that is refuted, spelled out *)
+Theorem C17_lhs_numbering_independent_unfold : forall f, lhs_numbering_independent f <->
+  forall (fa fa' : Z -> string) (fb fb' : Z -> Z -> string) (h : list Z -> Z) (s : Z -> Z) g lo hi nbp chs chs',
+    (forall x y, s x = s y -> x = y) -> wf_mol g = true ->
+    (forall x, fa' (s x) = fa x) -> (forall x y, fb' (s x) (s y) = fb x y) ->
+    Permutation chs (chains g lo hi) -> Permutation chs' (chains (rename_mol s g) lo hi) ->
+    forall k str,
+      In str (sget (f fa fb h (atom_identifiers g) g chs nbp) k) <->
+      In str (sget (f fa' fb' h (atom_identifiers (rename_mol s g)) (rename_mol s g) chs' nbp) k).
+Proof. exact (fun f => iff_refl _). Qed.
+Print Assumptions C17_lhs_numbering_independent_unfold.
